@@ -14,7 +14,9 @@ pub(crate) struct SpecialPrefixBackend<B: Backend> {
 }
 
 lazy_static! {
-    static ref RE: Regex = Regex::new("^item([0-9]+)").unwrap();
+    // only the canonical spelling item<N> is a tuple accessor: anchored at both ends, no leading
+    // zeros (item01 is not item1, item1x is not item1), and short enough to index a table
+    static ref RE: Regex = Regex::new("^item(0|[1-9][0-9]{0,5})$").unwrap();
 }
 
 #[derive(Derivative)]
